@@ -55,10 +55,20 @@ impl Handler for JSXBooleanValueHandler {
                   .previous_token_fast(ctx.program())
                   .map(|t| t.end())
                   .unwrap_or(token.start());
+                // `<A b={true}c />`: the next attribute may follow the value
+                // immediately; the two names must not run together.
+                let text_info = ctx.text_info();
+                let end_index =
+                  expr.end().as_byte_index(text_info.range().start);
+                let next_attribute_follows = text_info.text_str()[end_index..]
+                  .starts_with(|c: char| {
+                    !c.is_whitespace() && c != '/' && c != '>'
+                  });
                 fixes.push(LintFix {
                   description: FIX_DESC.into(),
                   changes: vec![LintFixChange {
-                    new_text: "".into(),
+                    new_text: if next_attribute_follows { " " } else { "" }
+                      .into(),
                     range: SourceRange::new(start_pos, expr.end()),
                   }],
                 });
